@@ -1,12 +1,11 @@
 #!/bin/bash
-# usage: run_mutants.sh [pattern]  -- applies each mutants/<ID>-*.diff to /repo, runs ./check <ID> quick, expects exit 1, reverts.
+# usage: run_mutants.sh [pattern]
+# Runs ./check <ID> quick with each mutants/<ID>-*.diff applied through the build overlay (VERIF_MUTANT);
+# /repo itself is never modified. Expects exit 1 (CAUGHT).
 cd /verif
 pat=${1:-}
 for d in mutants/*${pat}*.diff; do
   id=$(basename $d | cut -d- -f1)
-  if ! git -C /repo apply --check $PWD/$d 2>/dev/null; then echo "SKIP $d (does not apply)"; continue; fi
-  git -C /repo apply $PWD/$d
-  out=$(./check $id quick 2>/dev/null); rc=$?
-  git -C /repo checkout -- .
+  out=$(VERIF_MUTANT=$PWD/$d VERIF_NO_EVIDENCE=1 ./check $id quick 2>/dev/null); rc=$?
   if [ $rc -eq 1 ]; then echo "CAUGHT $d: $(echo "$out" | grep -m1 signature)"; else echo "MISSED $d (rc=$rc)"; fi
 done
